@@ -4,6 +4,7 @@ import (
 	"net/http"
 	"sync"
 	"sync/atomic"
+	"time"
 )
 
 // RoundRobinStrategy implements a round-robin load balancing strategy
@@ -30,9 +31,16 @@ func (rr *RoundRobinStrategy) NextBackend(r *http.Request) *Backend {
 		return nil
 	}
 
-	// Get the next index in a thread-safe way
-	idx := atomic.AddUint64(&rr.current, 1) % uint64(len(rr.backends))
-	return rr.backends[idx]
+	// Get the next index in a thread-safe way, skipping backends that are
+	// inside an unhealthy window (at most one full turn).
+	now := time.Now()
+	for range rr.backends {
+		idx := atomic.AddUint64(&rr.current, 1) % uint64(len(rr.backends))
+		if rr.backends[idx].eligible(now) {
+			return rr.backends[idx]
+		}
+	}
+	return nil
 }
 
 // AddBackend adds a backend to the pool
